@@ -214,9 +214,11 @@ func VerifC05Handshake(spec VerifC05HandshakeSpec) VerifC05HandshakeObs {
 	if timeout <= 0 || timeout > 60 {
 		timeout = 30
 	}
+	dog := VerifNewDog(timeout)
+	defer dog.Stop()
 	select {
 	case <-done:
-	case <-time.After(time.Duration(timeout) * time.Second):
+	case <-dog.C:
 		obs.Hang = true
 	}
 	obs.Elapsed = time.Since(t0).Milliseconds()
